@@ -43,7 +43,9 @@ FIRST_TRY = {'C01': True, 'C02': True, 'C03': False, 'C04': True, 'C05': False, 
              'C18n': False, 'C19n': True, 'C20n': False,
              'C01p': True, 'C02p': True, 'C03p': True, 'C04p': True, 'C05p': True, 'C06p': True, 'C07p': True, 'C08p': True, 'C09p': True,
              'C10p': True, 'C11p': True, 'C12p': True, 'C13p': False, 'C14p': True, 'C15p': True, 'C16p': True, 'C17p': True,
-             'C18p': True, 'C19p': False, 'C20p': True}
+             'C18p': True, 'C19p': False, 'C20p': True,
+             'C02q': False, 'C03q': True, 'C04q': True, 'C08q': True, 'C10q': True, 'C13q': True, 'C16q': False, 'C18q': False,
+             'C19q': True, 'C20q': True}
 REJECTED = {
     'C18b': 'superseded: caught by C18 (send:Updates:under) until repair e4f0c24 moved the counting of sent UPDATEs into '
             'write_tcp_thread() - the very function this change calls for the queued UPDATE - so the statistic is right again with the '
@@ -148,6 +150,9 @@ STRENGTHEN = {
     'C20n': 'histories may start on a directory that already holds a log in the format of an earlier release (Python-list lines): numbering continues after it',
     'C13p': 'before the stop a handler may have had the agent send a NOTIFICATION through its internal queue (sent on the next KEEPALIVE; this agent keeps the session): the stop in Established still sends its Cease',
     'C19p': 'flowspec rule pool gained a rule whose component types have one and two digits (1, 5, 10 - as text "10" sorts before "5"), also in the exhaustive alphabet (announce / withdraw through REST)',
+    'C02q': 'new shard of scripted outage histories: the session or its handshake ends in one of eight ways and the peer is then unreachable (every attempt refused / unanswered) for 100, 238, 242 or 500 s - long enough for every timer armed before, the 4-minute OpenSent wait included, to run out - then the cooperative peer takes over',
+    'C16q': 'requests of the v6 / vpn4 shapes may also withdraw IPv4 routes (withdraw + MP_REACH attribute, no IPv4 NLRI): both parts go out',
+    'C18q': 'ROUTE-REFRESH messages (type 5 and 128) for families the agent did not advertise, as walk events and as scripted scenarios: received messages all the same',
     'C16c': 'send cases now run with [bgp] rib on or off and with 0-2 earlier announcements on the same session whose prefixes the checked request may withdraw or re-announce (a withdraw list mixing announced and never-announced prefixes is the trigger)',
     'C19c': 'new operation: one peer UPDATE that carries IPv4 withdrawn routes together with a flowspec / VPNv4 MP_REACH or MP_UNREACH attribute; both parts must be applied (patch rebased onto the current tree because a later fix touched the same lines; original kept as patch.orig.diff)',
     'C20c': 'the peer address as configured became a dimension (IPv4, lower-case IPv6, upper-case IPv6) and a handler callback that raises is now a violation (event not logged) instead of a harness error',
@@ -181,7 +186,7 @@ def main():
     with open(os.path.join(HERE, 'seeded', 'INDEX.md'), 'w') as f:
         f.write('# Seeded changes (written by fresh sub-agents that saw only the property text)\n\n'
                 'Round 1: one change per property (C01..C20). Round 2 (ids ending in b): a second, different change for all twenty\n'
-                'properties. Rounds 3 to 13 (ids ending in c / d, e, f, g, h, i, j, k, m, n and p): further ones, the sub-agent being told what the earlier rounds had changed.\n'
+                'properties. Rounds 3 to 14 (ids ending in c / d, e, f, g, h, i, j, k, m, n, p and - for ten properties - q): further ones, the sub-agent being told what the earlier rounds had changed.\n'
                 'Each directory holds patch.diff, the agent\'s demo.py, meta.json (incl. what the verifier ran) and\n'
                 'result.txt; `tools/try_seed.sh <id>` re-runs the confirmation on scratch copies of /repo.\n\n'
                 '| id | change | needs | caught on first run | final check result |\n|---|---|---|---|---|\n')
